@@ -104,6 +104,9 @@ func MatchMain(eng *Engine) (bind inputrc.Bind, command func(), prefix bool) {
 }
 
 func (m *Engine) dispatchKeys(binds map[string]inputrc.Bind) (bind inputrc.Bind, prefix bool, read, matched []byte) {
+	// Number of keys matched when the shorter bind was kept for later.
+	prefixedLen := 0
+
 	for {
 		// Read a single byte from the input buffer.
 		// This mimics the way Bash reads input when the inputrc option `byte-oriented` is set.
@@ -126,6 +129,13 @@ func (m *Engine) dispatchKeys(binds map[string]inputrc.Bind) (bind inputrc.Bind,
 			// character as the key, or wait for the rest of it to be read.
 			if char, incomplete := m.matchMultibyte(read, binds); incomplete || len(char) > 0 {
 				return m.active, incomplete, char, char
+			}
+
+			// The shorter bind only owns the keys of its own sequence: those
+			// matched after it (as a prefix of longer binds now ruled out)
+			// are given back with the key that did not match.
+			if m.prefixed.Action != "" && prefixedLen > 0 && prefixedLen < len(matched) {
+				matched = matched[:prefixedLen]
 			}
 
 			prefix = false
@@ -156,6 +166,7 @@ func (m *Engine) dispatchKeys(binds map[string]inputrc.Bind) (bind inputrc.Bind,
 
 			if match.Action != "" {
 				m.prefixed = match
+				prefixedLen = len(matched)
 			}
 
 			continue
